@@ -560,6 +560,9 @@ type EnvConfig struct {
 	// service (header indexes, filter database, ban store); Env.DB stays
 	// the unwrapped database.
 	WrapDB func(walletdb.DB) walletdb.DB
+	// WrapFilterDB, if set, wraps the real filter database (below the
+	// counting wrapper) before it is wired into the service.
+	WrapFilterDB func(filterdb.FilterDatabase) filterdb.FilterDatabase
 }
 
 // Open opens a skeleton on a (copied) template directory.
@@ -578,6 +581,9 @@ func Open(dir string, cfg EnvConfig) *Env {
 		FilterCacheSize: cfg.FilterCacheSize, BlockCacheSize: cfg.BlockCacheSize,
 		PersistToDisk: cfg.Persist, DBWritesTicker: cfg.Ticker, WorkManager: e.WM,
 		WrapFilterDB: func(f filterdb.FilterDatabase) filterdb.FilterDatabase {
+			if cfg.WrapFilterDB != nil {
+				f = cfg.WrapFilterDB(f)
+			}
 			e.Cnt = &CountingDB{FilterDatabase: f, Written: make(chan int, 4096)}
 			return e.Cnt
 		},
